@@ -296,6 +296,11 @@ def check_C04(A: Analysis, tier):
                 rf.fail(Q("delete_object"), f"rename-for-deletion of {k}", f"when the last pid is deleted the {k} file is no "
                         "longer marked for deletion: an unreferenced object / empty list is left behind")
     rules.append(rf)
+    from .rules_locks import no_dir_removal_rule
+    rh4 = Rule("C04", "C04.h", "no call removes a directory of the store (shared with C07.h): a shard directory holds the objects, lists and "
+               "references of every identifier with the same prefix, so removing one (rmtree, or rmdir after a wrong emptiness test) takes other pids' data", floor=3)
+    no_dir_removal_rule(A, rh4)
+    rules.append(rh4)
     # the tagging roll-back unbinds a pid (and shrinks its cid list): run for a pid that was already bound it makes
     # the object look unreferenced to the next delete_object of another pid
     c3 = [r for r in c03_cached(A) if r.rid == "C03.e"][0]
@@ -535,6 +540,14 @@ def check_C09(A: Analysis, tier):
                      "write without raising, and no write site checks the returned count - a truncated file would be published under the digest of the full content",
                      A.p.loc(ev.func, ev.node))
     rules.append(re9)
+    from .rules_data import check_C01
+    c1e = [r for r in check_C01(A, "quick") if r.rid == "C01.e"][0]
+    rf9 = Rule("C09", "C09.f", "what is renamed to objects/<digest> holds every byte that was hashed (shared with C01.e): a temp file written with "
+               "gaps or a dropped tail is, once published, indistinguishable from a half-written object", floor=c1e.floor)
+    rf9.instances, rf9.nontrivial, rf9.obligations = list(c1e.instances), set(c1e.nontrivial), c1e.obligations
+    for f in c1e.findings:
+        rf9.fail(f.func, f.construct, f.message, f.loc, f.detail)
+    rules.append(rf9)
     return rules
 
 
